@@ -19,7 +19,10 @@ RULE = ("Programs: 1-6 (thorough 1-8) reactions over 1-6 (1-8) substances in a p
         "construction (every substance occurs, no duplicate stoichiometry, net effect non-zero), with catalysts, inactive "
         "coefficients, zeroth-order steps; rate laws mass-action / Arrhenius / Eyring with int, Fraction or float "
         "constants, about one in nine rate constants / pre-exponential factors exactly zero (0, Fraction(0), 0.0: a "
-        "switched-off reaction at any position).  Each program is built as: inline (include_params=True), unique (MassAction([k], unique_keys), "
+        "switched-off reaction at any position); in about a fifth of the reactions after the first the rate expression is "
+        "the very same object (MassAction / MassAction(Arrhenius|Eyring)) as that of an earlier reaction with another "
+        "stoichiometry; in a third of the programs some or all Substance objects carry a name that differs from their "
+        "key (descriptive names, aliases, no name, a permutation of the keys).  Each program is built as: inline (include_params=True), unique (MassAction([k], unique_keys), "
         "include_params=False, bound through extra['unique']), named ('k_j'), passive/active substitutions "
         "(temperature value, RampedTemp with/without unique keys, a rate key replaced by a number or by a polynomial in "
         "temperature), cstr=True / explicit feed map, and _create_odesys (plain; with cstr_fr_fc and "
@@ -38,6 +41,9 @@ ASSUMPTIONS = [
     "symbols handed to _create_odesys by the caller are identified by the key they were given for (dependent variable i "
     "must be the symbol given for substance i, parameter named k the symbol given for key k, the independent variable "
     "the given time symbol); their names carry no meaning",
+    "a builder that raises is taken to refuse the program only for the stated reasons (bare-number right-hand side: "
+    "AttributeError from pyodesys; Substance.name != key in get_odesys: KeyError / ValueError; a shared key with "
+    "_create_odesys' default parameter symbols: ValueError 'Duplicates in keys'); any other exception is a violation",
 ]
 
 TOL_FLOAT_POLY = 1e-12    # float constants: a handful of roundings (<= ~10 ulp = 2e-15) per coefficient; mutants are O(1)
@@ -77,17 +83,19 @@ def rate_keys(j, rx):
     return ["%s_%d" % (n, j) for n in KEYNAMES[rx["kind"]]]
 
 
-def dress(M, j, rx, style):
-    """The `param` object of reaction j.  style: numeric | unique | named"""
+def dress(M, j, rx, style, shared=False):
+    """The `param` object of reaction j (j = index of the group's leader when the object is shared: the keys are the
+    leader's).  style: numeric | unique | named.  shared: the result must be one rate-expression *object* that can be
+    handed to several reactions (a plain number or a key string is wrapped in MassAction)."""
     par = [G.num(x) for x in rx["par"]]
     kind = rx["kind"]
     uk = tuple(rate_keys(j, rx))
     if kind == "ma":
         if style == "numeric":
-            return par[0]
+            return M["MassAction"]([par[0]]) if shared else par[0]
         if style == "unique":
             return M["MassAction"]([par[0]], unique_keys=uk)
-        return uk[0]
+        return M["MassAction"].fk(uk[0]) if shared else uk[0]
     cls = M["Arrhenius"] if kind == "arr" else M["Eyring"]
     if style == "numeric":
         return M["MassAction"](cls(par))
@@ -97,10 +105,19 @@ def dress(M, j, rx, style):
 
 
 def build_rsys(M, case, style, override=None):
-    subs = OrderedDict((k, M["Substance"](k)) for k in case["subs"])
+    names = (case.get("subnames") or {}).get("names") or {}
+    subs = OrderedDict((k, M["Substance"](names.get(k, k))) for k in case["subs"])
     rxns = []
+    groups = set(rx["share"] for rx in case["rxns"] if "share" in rx)      # leaders whose object is used more than once
+    objects = {}
     for j, rx in enumerate(case["rxns"]):
-        p = dress(M, j, rx, style)
+        lead = G.leader(case["rxns"], j)
+        if lead in groups:
+            if lead not in objects:
+                objects[lead] = dress(M, lead, case["rxns"][lead], style, shared=True)
+            p = objects[lead]           # the very same object for every member of the group
+        else:
+            p = dress(M, j, rx, style)
         if override and j in override:
             p = override[j]
         rxns.append(M["Reaction"](dict(rx["reac"]), dict(rx["prod"]), p,
@@ -123,8 +140,12 @@ def configurations(case):
     thermal = any(r["kind"] != "ma" for r in rx)
     allkeys = {}
     for j, r in enumerate(rx):
-        for i, name in enumerate(rate_keys(j, r)):
-            allkeys[name] = ("par", j, i)
+        if G.leader(rx, j) == j:
+            for i, name in enumerate(rate_keys(j, r)):
+                allkeys[name] = ("par", j, i)
+
+    def group(j):
+        return [m for m in range(len(rx)) if G.leader(rx, m) == G.leader(rx, j)]
     Tfree = {"temperature": ("T",)} if thermal else {}
     out = []
 
@@ -150,13 +171,13 @@ def configurations(case):
             free.update({"T0": ("T0",), "dTdt": ("dTdt",)})
         cfg("ramp", style="numeric" if inline else "unique", include_params=inline, free=free, tmode="ramp",
             subst="rampU" if case["ramp_unique"] else "ramp", from_unique=not inline)
-    j = case["subst_idx"]
+    j = G.leader(rx, case["subst_idx"])
     first = rate_keys(j, rx[j])[0]
     free = {k: v for k, v in allkeys.items() if k != first}
     cfg("subst_key", style="named", include_params=False, free=dict(free, **Tfree), subst=("key", first, j))
     if rx[j]["kind"] == "ma":
         cfg("subst_expr", style="named", include_params=False, free=dict(free, temperature=("T",)), subst=("expr", first, j),
-            kpoly={j: tuple(case["pexpr_coef"])}, tmode="T")
+            kpoly={m: tuple(case["pexpr_coef"]) for m in group(j)}, tmode="T")
     # (e) CSTR
     style = "numeric" if case["cstr_inline"] else "named"
     free = {} if case["cstr_inline"] else dict(allkeys)
@@ -176,7 +197,7 @@ def configurations(case):
     # (f) the explicit builder (mass-action only: it evaluates rates with the `math` backend)
     if not thermal:
         cfg("create", builder="create", style="named" if case["cstr_true"] else "unique", include_params=False, free=dict(allkeys))
-        jp = case["pexpr_idx"]
+        jp = G.leader(rx, case["pexpr_idx"])
         kp = rate_keys(jp, rx[jp])[0]
         free = {k: v for k, v in allkeys.items() if k != kp}
         free["temperature"] = ("T",)
@@ -185,7 +206,7 @@ def configurations(case):
         for k, n in fc.items():
             free[n] = ("fc", k)
         cfg("create_x", builder="create", style="named", include_params=False, free=free, cstr=("flow", fc), pexpr=True,
-            kpoly={jp: tuple(case["pexpr_coef"])}, tmode="T", pexpr_key=kp)
+            kpoly={m: tuple(case["pexpr_coef"]) for m in group(jp)}, tmode="T", pexpr_key=kp)
     return out
 
 
@@ -273,7 +294,8 @@ def constant_rhs(case, c):
     def bare_number(j, rx):
         if rx["reac"] or rx["kind"] != "ma" or j in c["kpoly"]:
             return False
-        return inlined_all or (isinstance(c["subst"], tuple) and c["subst"][0] == "key" and c["subst"][2] == j)
+        return inlined_all or (isinstance(c["subst"], tuple) and c["subst"][0] == "key"
+                               and c["subst"][2] == G.leader(case["rxns"], j))
     for s in case["subs"]:
         if c["cstr"] and s in c["cstr"][1]:
             continue
@@ -353,7 +375,7 @@ def ref_eval(case, c, values):
     conc = {k: m(values[("c", k)]) for k in case["subs"]}
     rates = []
     for j, rx in enumerate(case["rxns"]):
-        par = [m(values[("par", j, i)]) for i in range(len(rx["par"]))]
+        par = [m(values[("par", G.leader(case["rxns"], j), i)]) for i in range(len(rx["par"]))]
         if j in c["kpoly"]:
             a0, a1 = [m(G.frac(x)) for x in c["kpoly"][j]]
             k = a0 + a1 * T
@@ -396,8 +418,8 @@ def ref_polys(case, c, inv_free):
         if j in c["kpoly"]:
             a0, a1 = [G.frac(x) for x in c["kpoly"][j]]
             kterms = [(a0, []), (a1, [("p:temperature", 1)])]
-        elif ("par", j, 0) in inv_free:
-            kterms = [(Fraction(1), [("p:" + inv_free[("par", j, 0)], 1)])]
+        elif ("par", G.leader(case["rxns"], j), 0) in inv_free:
+            kterms = [(Fraction(1), [("p:" + inv_free[("par", G.leader(case["rxns"], j), 0)], 1)])]
         else:
             kterms = [(G.frac(rx["par"][0]), [])]
         cpow = [("c:" + s, n) for s, n in rx["reac"].items()]
@@ -452,6 +474,13 @@ def check_program(case, ctx):
         ctx.label("both_sides")
     if any(not rx["reac"] for rx in rxns):
         ctx.label("zeroth_order")
+    shared = any("share" in rx for rx in rxns)
+    if shared:
+        ctx.label("shared_rate_object", "shared_rate_object:" + ("thermal" if any(
+            rx["kind"] != "ma" for rx in rxns if "share" in rx) else "mass_action"))
+    renamed = (case.get("subnames") or {}).get("names") or {}
+    if renamed:
+        ctx.label("substance_name_differs_from_key", "substance_names=" + case["subnames"]["style"])
     zeros = [j for j, rx in enumerate(rxns) if G.frac(rx["par"][0]) == 0]
     if zeros:
         ctx.label("zero_rate_constant", "zero_rate_constant:%s" % ("all" if len(zeros) == len(rxns) else
@@ -461,16 +490,30 @@ def check_program(case, ctx):
     numeric_results = {}
     for c in configurations(case):
         name = c["name"]
+        # Programs a builder is known to refuse loudly: the program is not "accepted by the builder" in this configuration;
+        # if it is accepted it is checked like any other.  (label, exception types, message part)
+        refusals = []
         if constant_rhs(case, c):
             # some right-hand side is a bare Python number: pyodesys cannot take it and the builder raises
-            # (AttributeError: 'int' object has no attribute 'free_symbols' / 'has').  A loud rejection: the program is not
-            # "accepted by the builder" in this configuration; if it is accepted it is checked like any other.
+            # (AttributeError: 'int' object has no attribute 'free_symbols' / 'has')
+            refusals.append(("constant_rhs", ("AttributeError",), "object has no attribute"))
+        if renamed and c["builder"] == "get":
+            # get_odesys labels the dependent variables with Substance.name and evaluates the rates with a dictionary keyed
+            # that way: a key that is no name is missed (KeyError); names that are None collide in pyodesys (ValueError)
+            refusals.append(("name_differs_from_key", ("KeyError", "ValueError"), ""))
+        if shared and c["builder"] == "create" and (case.get("sym") or {}).get("params") is None:
+            # _create_odesys derives its default parameter symbols per reaction and refuses a key met twice
+            refusals.append(("shared_key_with_default_parameter_symbols", ("ValueError",), "Duplicates in keys"))
+        if refusals:
             built = sut(build, M, case, c)
             if is_err(built):
-                if built.type != "AttributeError" or "object has no attribute" not in built.msg:
+                why = [r[0] for r in refusals if built.type in r[1] and r[2] in built.msg]
+                if not why:
                     ctx.fail("builder_raises", cfg=name, error=repr(built))
-                ctx.label("rejected:constant_rhs")
+                ctx.label(*("rejected:" + w for w in (why or ["unexpected"])))
                 continue
+            if renamed and c["builder"] == "get":
+                ctx.label("accepted_by_get_odesys:substance_names=" + case["subnames"]["style"])
         else:
             built = build(M, case, c)
         od, extra = built
